@@ -216,6 +216,27 @@ def rule_d(ck, R):
     ok = fs == {'tcp': {'lenp_chunks_to_sink'}, 'serial': {'rfc1055_encode'}} and fr == {'tcp': {'lenp_decode_source_to_sink'}, 'serial': {'rfc1055_decode'}}
     ck.verdict(ok, 'C08.d', 'framing-pairs', R.where('send_memory'),
                'TCP: varint length prefix both ways; serial: SLIP both ways' if ok else 'send uses %s, receive uses %s' % (fs, fr))
+    # one frame = one run of the framing encoder: it is called once, outside any loop, and its verdict is what send_memory
+    # returns.  A run that failed has consumed payload octets from its source and may have put a delimiter; running the
+    # encoder again over the same source (a "retry" around it) emits a frame that lacks the octet the sink refused, or a
+    # second opening - the retry of a single octet is the business of the put calls underneath (C17), not of the framer
+    bad1 = None
+    nenc = 0
+    for p in sm:
+        encs = [e for e in p.calls() if e.name in ('lenp_chunks_to_sink', 'rfc1055_encode')]
+        if not encs:
+            continue
+        nenc += 1
+        if any(e.inloop for e in encs) or p.end == 'loopback':
+            bad1 = bad1 or ('send_memory runs %s inside a loop (%s): a second run over the same source emits a frame without the octets the failed run had already '
+                            'taken from it (or a second frame opening)' % (encs[0].name, encs[0].where()))
+        elif len(encs) != 1:
+            bad1 = bad1 or 'send_memory calls the framing encoder %d times for one frame' % len(encs)
+    if nenc == 0:
+        ck.broken('C08.d', 'one-run', R.where('send_memory'), 'no framing call found in send_memory')
+    else:
+        ck.verdict(bad1 is None, 'C08.d', 'one-run', R.where('send_memory'),
+                   'each frame is one run of its framing encoder, outside any loop (%d paths)' % nenc if bad1 is None else bad1)
     # classic SLIP context on both sides, sink/source of the endpoint
     bad = None
     for paths, fn in ((sm, 'rfc1055_encode'), (rv, 'rfc1055_decode')):
